@@ -219,7 +219,8 @@ func (x *X) dialTarget() (string, string) {
 
 func (x *X) doConnect(op tr.Line) tr.Line {
 	h := hresOf(arg(op, 1), arg(op, 2), arg(op, 3))
-	out := tr.L("connect", "0", actName(h.act), b2s(h.wfail), actName(h.cact))
+	// loop 99 = not observed: the model drops the op (no such loop)
+	out := tr.L("connect", "99", actName(h.act), b2s(h.wfail), actName(h.cact))
 	if x.cfg.client || x.cfg.proto == "udp" || len(x.lisNet) == 0 {
 		return out
 	}
